@@ -912,7 +912,7 @@ def gen_steps(rng, cls0, lab, sc, ps, nsteps, bad_weight=2):
             if not (cls == 'U' and n < 2):
                 opts.append('ar')
         elif cls == 'T':
-            opts.append('ar')
+            opts += ['ar', 'red']        # round 2 (L8): reductions of a 0-d object (`max` hands back the object itself: a result that is its operand)
         opts += ['bad'] * bad_weight
         k = rng.choice(opts)
         if k == 'bad':
@@ -957,7 +957,7 @@ def gen_steps(rng, cls0, lab, sc, ps, nsteps, bad_weight=2):
             # the line's discipline is the source class's: once the class has changed only `max` (an element view in both) is used
             names = (['min', 'max', 'sum', 'ptp'] if cls0 == 'T' else ['min', 'max']) if cls == cls0 else ['max']
             st = ('red', rng.choice(names))
-            if cls == 'T' and cls0 == 'T' and st[1] != 'max' and rng.random() < 0.4:
+            if cls == 'T' and cls0 == 'T' and st[1] != 'max' and not sc and rng.random() < 0.4:
                 st = ('red', st[1], 'axis0')
         else:
             if rng.random() < 0.6 or cls == 'U':
@@ -1035,6 +1035,8 @@ def run_hist(sp, steps, opn, build_operand):
     if np.asarray(o).ndim == 0:
         obs['reprs'].append(repr(o))
     other = build_operand()
+    if isinstance(other, str) and other.startswith('SELF'):
+        other = {'SELF': lambda: o, 'SELFVIEW': lambda: o[...], 'SELFVIEW2': lambda: o.view(type(o))}[other]()
     fn = OPS_AR.get(opn) or OPS_CMP[opn]
     fin = call(lambda: 'ok ' + ((canon_O if opn in OPS_AR else canon_B)(fn(o, other))))
     if fin.startswith('err'):
@@ -1059,6 +1061,12 @@ def hist_cases(rng, n):
         opn = rng.choice(list(OPS_AR) + list(OPS_CMP))
         kind = rng.choice(['pyint', 'pyint', 'pyfloat', 'list', 'int64', 'int16', 'time', 'arr0d', 'bigint', 'float64'])
         tok, build, meta = gen_operand(rng, kind, lab_e, len(ps_e))
+        if cls_e == 'T' and lab_e in UNITS and rng.random() < 0.1:
+            # round 2 (L8): the operand IS the time object itself (t + t, t - t, t == t, t <= t) or a view of it; the expectation is
+            # the one for an independent equal-valued operand (the model line only knows values)
+            how = rng.choice(['SELF', 'SELFVIEW', 'SELFVIEW2'])
+            kind, tok, build = 'time', tok_T(lab_e, sc_e, ps_e), (lambda how=how: how)
+            meta = {'kind': 'time', 'unit': lab_e, 'scalar': sc_e, 'ps': list(ps_e), 'alias': how}
         if kind == 'time' and opn in ('radd', 'rsub'):
             opn = 'add'
         meta.update(op='hist', fop=opn, source=sp, steps=[list(st) for st in steps], cls=cls, expect0=[cls, u, sc, ps])
@@ -1331,6 +1339,8 @@ def rebuild_case(line, clause, m):
 
     def operand():
         k = m['kind']
+        if m.get('alias'):
+            return m['alias']
         if k == 'time':
             return mk_T(m['unit'], m['scalar'], m['ps'])
         v = m['vals']
